@@ -342,6 +342,10 @@ impl WriteBuffer {
     }
 
     fn trigger_flush(&self, shard_id: usize, buffer: &ShardedWriteBuffer) {
+        #[cfg(feoxdb_verif)]
+        if crate::verif::dev::full_trigger_paused() {
+            return;
+        }
         if buffer.is_full() && !self.worker_channels.is_empty() {
             let worker_id = shard_id % self.worker_channels.len();
             let req = FlushRequest {
